@@ -171,6 +171,10 @@ func init() {
 				c13check(t, "odd-key", sx.L(sx.A("odd-key"), sx.A(t)), false)
 			}
 		}
+		// documents that are not a mapping or a list at all
+		for _, t := range []string{"~", "null", "---", "--- ~", "---\n# only a comment\n", "", " ", "\n", "42", "text", "true", "1.5", "[]", "{}", "--- []", "--- {}", "''", "!!binary aGk=", "...", "--- |\n  block\n", "&a *a", "*a"} {
+			c13check(t, "scalar-document", sx.L(sx.A("scalar-document"), sx.A(t)), false)
+		}
 		junk := []string{"<<: &q [*q]", "\x00", "\xff\xfe", "&a", "*a", "<<: *a", "{", "}", "[", "]", ": ", "- ", "\n", "\t", "!!binary ", "? ", "|", ">", "'", "\"", "%YAML 1.1", "---", "...", "&x [*x]", "!!int x", " "}
 		for i := 0; i < m; i++ {
 			g := newDocgen(rng, true)
